@@ -225,10 +225,29 @@ def run(prop: str, tier_: str) -> int:
                            '/dash/live/bbb/manifest_e.mpd?drm=marlin,playready-pro']
                 for hurl in history:
                     c.get(hurl)
+                # a stream whose key row was deleted after its encrypted file was indexed (DELETE /key/<pk>, see C17): the stored
+                # init segment still names the key id, the database no longer knows it
+                from harness.core import REPO as _REPO
+                src_nk = (_REPO / 'tests' / 'fixtures' / 'bbb' / 'bbb_v7_enc.mp4').read_bytes()
+                old_kid = next(b.f['default_kid'] for b in Parsed(src_nk[:4096]).boxes() if b.name == 'tenc')
+                new_kid = bytes.fromhex('00112233445566778899aabbccddeeff')
+                if src_nk.count(old_kid) != 1:
+                    raise MachineryFailure('cannot re-key the fixture')
+                nkf = d / 'nk_v7_enc.mp4'
+                nkf.write_bytes(src_nk.replace(old_kid, new_kid))
+                da.add_fixture('bbb', directory='nokey', title='key deleted after indexing', only={'bbb_a1'}, extra=[(nkf, 'nk_v7_enc')])
+                with da.app.app_context():
+                    row = models.Key.get(hkid=new_kid.hex())
+                    if row is None:
+                        raise MachineryFailure('indexing did not create the key row')
+                    models.db.session.delete(row)
+                    models.db.session.commit()
+                reps = reps + [('nokey', 'nk_v7_enc', 'm4v', 1)]
                 ninit = 0
                 for stream, rid, ext, enc in reps:
                     sf = stored(da.blob_folder / stream / f'{rid}.mp4')
                     init = sf.data[:sf.init_end]
+                    kdel = 1 if stream == 'nokey' else 0
                     pinit = Parsed(init)
                     kid = None
                     for b in pinit.boxes():
@@ -250,7 +269,7 @@ def run(prop: str, tier_: str) -> int:
                                 tid += 1
                                 if r.status_code != 200:
                                     lines.append({'tid': tid, 'ev': 'init_refused', 'url': url, 'status': r.status_code, 'rep': rid, 'mode': mode,
-                                                  'encrypted': enc})
+                                                  'encrypted': enc, 'key_deleted': kdel})
                                     continue
                                 pr = Parsed(r.data)
                                 moov = pr.find('moov')
@@ -282,10 +301,12 @@ def run(prop: str, tier_: str) -> int:
                                             pssh_ok = 0
                                     if b.f.get('consumed') != b.size:
                                         pssh_ok = 0
-                                lines.append({'tid': tid, 'ev': 'init', 'url': url, 'rep': rid, 'mode': mode, 'encrypted': enc,
+                                lines.append({'tid': tid, 'ev': 'init', 'url': url, 'rep': rid, 'mode': mode, 'encrypted': enc, 'key_deleted': kdel,
                                               'want_pssh': expected_pssh(qv, bool(enc)),
                                               'obs': {'wf': 1 if pr.well_formed() else 0, 'same_except': 1 if same and tail_ok else 0, 'diff': diff,
                                                       'pssh': [b.f.get('system_id', b'').hex() for b in new_pssh], 'pssh_ok': pssh_ok,
+                                                      'pssh_sizes': [b.size for b in new_pssh],
+                                                      'pssh_nkids': [len(b.f.get('key_ids', [])) if b.f.get('system_id') == CLEARKEY else -1 for b in new_pssh],
                                                       'mehd_removed': 1 if drop_mehd else 0, 'had_mehd': had_mehd}})
         good = [x for x in lines if x['ev'] in ('media', 'init')]
         refused = [x for x in lines if x['ev'] == 'refused']
@@ -298,7 +319,7 @@ def run(prop: str, tier_: str) -> int:
             if not v['clause'].startswith(prop + '_'):
                 continue
             case = {'url': lo['url'], 'rep': lo.get('rep'), 'kind': lo.get('kind'), 'mode': lo.get('mode'), 'detail': v['detail'],
-                    'obs': lo.get('obs'), 'layout': lo.get('layout'), 'want_pssh': lo.get('want_pssh')}
+                    'obs': lo.get('obs'), 'layout': lo.get('layout'), 'want_pssh': lo.get('want_pssh'), 'key_deleted': lo.get('key_deleted', 0)}
             key = f"{v['clause']}|{lo.get('rep')}|{lo.get('kind')}|{lo.get('mode')}|{re.sub(r'[0-9]+', 'N', lo['url'].split('?')[-1])[:80]}"
             if key in seen:
                 continue
